@@ -138,4 +138,57 @@ theorem pass2_fold (c : Cfg) (anc : Nat) (ws : List PM) (m : M) :
         · exact absurd hd' hd
         · exact h2 w' hw' hd'
 
+/-- as `pass2_fold`, recording that a query is only sent for a plug that was not "active" -/
+theorem pass2_fold' (c : Cfg) (anc : Nat) (ws : List PM) (m : M) :
+    ∃ qs, ws.foldl (pass2Step c anc) m = { m with active := m.active ++ qs } ∧
+      (∀ q ∈ qs, ∃ w ∈ ws, isDesc c w.plug anc = true ∧ q = query (childOf c w.plug anc) ∧
+        plugActive m (childOf c w.plug anc) w.cmd = false) ∧
+      (∀ w ∈ ws, isDesc c w.plug anc = true →
+        plugActive { m with active := m.active ++ qs } (childOf c w.plug anc) w.cmd = true) := by
+  induction ws generalizing m with
+  | nil => exact ⟨[], by simp⟩
+  | cons w ws ih =>
+    rw [List.foldl_cons]
+    by_cases hd : isDesc c w.plug anc = true
+    · by_cases ha : plugActive m (childOf c w.plug anc) w.cmd = true
+      · have e : pass2Step c anc m w = m := by simp [pass2Step, hd, ha]
+        rw [e]
+        obtain ⟨qs, e1, h1, h2⟩ := ih m
+        refine ⟨qs, e1, ?_, ?_⟩
+        · intro q hq; obtain ⟨w', hw', r⟩ := h1 q hq; exact ⟨w', List.mem_cons_of_mem _ hw', r⟩
+        · intro w' hw' hd'
+          rcases List.mem_cons.1 hw' with rfl | hw'
+          · exact plugActive_mono m _ _ qs _ rfl ha
+          · exact h2 w' hw' hd'
+      · have e : pass2Step c anc m w = { m with active := m.active ++ [query (childOf c w.plug anc)] } := by
+          simp [pass2Step, hd, ha, query]
+        rw [e]
+        obtain ⟨qs, e1, h1, h2⟩ := ih { m with active := m.active ++ [query (childOf c w.plug anc)] }
+        refine ⟨query (childOf c w.plug anc) :: qs, ?_, ?_, ?_⟩
+        · rw [e1]; simp
+        · intro q hq
+          rcases List.mem_cons.1 hq with rfl | hq
+          · exact ⟨w, by simp, hd, rfl, by simpa using ha⟩
+          · obtain ⟨w', hw', r1, r2, r3⟩ := h1 q hq
+            refine ⟨w', List.mem_cons_of_mem _ hw', r1, r2, ?_⟩
+            cases hpa : plugActive m (childOf c w'.plug anc) w'.cmd
+            · rfl
+            · have := plugActive_mono m _ _ [query (childOf c w.plug anc)]
+                { m with active := m.active ++ [query (childOf c w.plug anc)] } rfl hpa
+              rw [this] at r3; cases r3
+        · intro w' hw' hd'
+          rcases List.mem_cons.1 hw' with rfl | hw'
+          · unfold plugActive; simp [query]
+          · have := h2 w' hw' hd'
+            simpa using this
+    · have e : pass2Step c anc m w = m := by simp [pass2Step, hd]
+      rw [e]
+      obtain ⟨qs, e1, h1, h2⟩ := ih m
+      refine ⟨qs, e1, ?_, ?_⟩
+      · intro q hq; obtain ⟨w', hw', r⟩ := h1 q hq; exact ⟨w', List.mem_cons_of_mem _ hw', r⟩
+      · intro w' hw' hd'
+        rcases List.mem_cons.1 hw' with rfl | hw'
+        · exact absurd hd' hd
+        · exact h2 w' hw' hd'
+
 end Pm.Redfish
